@@ -209,7 +209,8 @@ fn lex_block_string(lexer: &mut Lexer<'_, IsographLangTokenKind>) -> bool {
                 return true;
             }
             BlockStringToken::EscapedTripleQuote | BlockStringToken::Other => {}
-            BlockStringToken::Error => unreachable!(),
+            // e.g. a control character or a character outside the basic multilingual plane
+            BlockStringToken::Error => return false,
         }
     }
     false
